@@ -16,6 +16,7 @@ import (
 	"os"
 	"os/exec"
 	"path/filepath"
+	"runtime"
 	"strconv"
 	"strings"
 	"time"
@@ -127,14 +128,16 @@ var c10Keys = map[string]c10Key{
 	"keyid-decimal":         {file: "decimal_priv.asc", pub: "decimal_pub", keyID: "4399095419976992"},
 	"decimal-no-keyid":      {file: "decimal_priv.asc", pub: "decimal_pub"},
 	// the key file reached through a symbolic link (a mounted secret)
-	"expired-subkey":    {file: "GENSUB:expired", pub: "pubkey"},
+	"expired-subkey": {file: "GENSUB:expired", pub: "pubkey"},
 	// a protected key with two signing subkeys (a rotation in progress); the key id names the older / the newer one
+	// a key whose primary key only certifies; a subkey signs (the usual layout of a key kept offline)
+	"certify-only-primary":      {file: "GENCERT:", pub: "pubkey"},
 	"two-signing-subkeys-older": {file: "GEN2SUB:older", pub: "pubkey", givePass: "hunter2", passVar: "NFPM_PASSPHRASE"},
 	"two-signing-subkeys-newer": {file: "GEN2SUB:newer", pub: "pubkey", givePass: "hunter2", passVar: "FORMAT"},
-	"armored-symlink":   {file: "LINK:privkey_unprotected.asc", pub: "pubkey"},
-	"protected-symlink": {file: "LINK:privkey.asc", pub: "pubkey", givePass: "hunter2", passVar: "FORMAT"},
-	"pkcs1-symlink":     {file: "LINK:rsa_unprotected.priv", pub: "rsa_unprotected.pub", apk: true},
-	"pkcs1":             {file: "rsa_unprotected.priv", pub: "rsa_unprotected.pub", apk: true},
+	"armored-symlink":           {file: "LINK:privkey_unprotected.asc", pub: "pubkey"},
+	"protected-symlink":         {file: "LINK:privkey.asc", pub: "pubkey", givePass: "hunter2", passVar: "FORMAT"},
+	"pkcs1-symlink":             {file: "LINK:rsa_unprotected.priv", pub: "rsa_unprotected.pub", apk: true},
+	"pkcs1":                     {file: "rsa_unprotected.priv", pub: "rsa_unprotected.pub", apk: true},
 	// the private key followed by its public key in one file (as `openssl genrsa; openssl rsa -pubout >>` leaves it)
 	// an unprotected RSA key while a passphrase is set anyway (the general variable, meant for another format's key)
 	"pkcs1-with-passphrase":        {file: "rsa_unprotected.priv", pub: "rsa_unprotected.pub", givePass: "hunter2", passVar: "NFPM_PASSPHRASE", apk: true},
@@ -152,7 +155,7 @@ var c10Keys = map[string]c10Key{
 	"pem-garbage":               {file: "wrong_key_format.priv", pub: "rsa.pub", apk: true, wantFail: true},
 }
 
-var c10PGPKeys = []string{"two-signing-subkeys-older", "two-signing-subkeys-newer", "expired-subkey", "armored-symlink", "protected-symlink", "subkey-only-with-passphrase", "armored-with-passphrase", "binary-with-passphrase", "armored-leading-blank", "armored-leading-text", "armored-crlf", "armored-trailing-text", "keyid-decimal", "decimal-no-keyid", "armored", "binary", "protected", "protected-binary", "subkey-only", "keyid-primary", "keyid-subkey", "keyid-primary-upper", "keyid-subkey-mixed", "wrong-passphrase", "no-passphrase", "multiple-keys", "keyid-invalid", "keyid-garbage-prefix", "keyid-garbage-suffix", "keyid-too-long", "key-missing"}
+var c10PGPKeys = []string{"certify-only-primary", "two-signing-subkeys-older", "two-signing-subkeys-newer", "expired-subkey", "armored-symlink", "protected-symlink", "subkey-only-with-passphrase", "armored-with-passphrase", "binary-with-passphrase", "armored-leading-blank", "armored-leading-text", "armored-crlf", "armored-trailing-text", "keyid-decimal", "decimal-no-keyid", "armored", "binary", "protected", "protected-binary", "subkey-only", "keyid-primary", "keyid-subkey", "keyid-primary-upper", "keyid-subkey-mixed", "wrong-passphrase", "no-passphrase", "multiple-keys", "keyid-invalid", "keyid-garbage-prefix", "keyid-garbage-suffix", "keyid-too-long", "key-missing"}
 var c10APKKeys = []string{"pkcs1-with-passphrase", "pkcs1-with-format-passphrase", "pkcs1-then-public", "pkcs1-symlink", "encrypted-pem-dollar-pass", "encrypted-pem-padded-pass", "pkcs1", "pkcs8", "pkcs8-4096", "encrypted-pem", "encrypted-pem-general", "encrypted-pem-wrong", "pem-garbage"}
 
 // c10Payloads is the number of payload shapes (0 = empty).
@@ -743,6 +746,53 @@ func checkC10(env *engine.Env, ci any) engine.Outcome {
 			}
 			sigm["key_file"] = lp
 		}
+		if strings.HasPrefix(key.file, "GENCERT:") {
+			t0 := time.Date(2020, 2, 3, 4, 5, 6, 0, time.UTC)
+			pc := &packet.Config{Time: func() time.Time { return t0 }, Algorithm: packet.PubKeyAlgoRSA, RSABits: 2048, DefaultHash: crypto.SHA256}
+			ent, err := openpgp.NewEntity("Verif Offline Primary", "", "offline@example.com", pc)
+			if err != nil {
+				out.HarnessError = "cannot generate a key: " + err.Error()
+				return out
+			}
+			for name, id := range ent.Identities {
+				id.SelfSignature.FlagsValid, id.SelfSignature.FlagCertify, id.SelfSignature.FlagSign = true, true, false
+				if err := id.SelfSignature.SignUserId(name, ent.PrimaryKey, ent.PrivateKey, pc); err != nil {
+					out.HarnessError = "cannot re-sign the identity: " + err.Error()
+					return out
+				}
+			}
+			if err := ent.AddSigningSubkey(pc); err != nil {
+				out.HarnessError = "cannot add a signing subkey: " + err.Error()
+				return out
+			}
+			base := filepath.Join(env.Scratch, "gen-certify-only-primary")
+			var pb, pa, kb bytes.Buffer
+			if err := ent.Serialize(&pb); err != nil {
+				out.HarnessError = "cannot write the generated public key: " + err.Error()
+				return out
+			}
+			if aw, err := armor.Encode(&pa, openpgp.PublicKeyType, nil); err == nil {
+				aw.Write(pb.Bytes())
+				aw.Close()
+			}
+			os.WriteFile(base+"-pub.gpg", pb.Bytes(), 0o644)
+			os.WriteFile(base+"-pub.asc", pa.Bytes(), 0o644)
+			aw, err := armor.Encode(&kb, openpgp.PrivateKeyType, nil)
+			if err == nil {
+				err = ent.SerializePrivateWithoutSigning(aw, nil)
+				aw.Close()
+			}
+			if err != nil {
+				out.HarnessError = "cannot write the generated key: " + err.Error()
+				return out
+			}
+			if err := os.WriteFile(base+".asc", kb.Bytes(), 0o600); err != nil {
+				out.HarnessError = err.Error()
+				return out
+			}
+			sigm["key_file"] = base + ".asc"
+			c10PubName = base + "-pub"
+		}
 		if strings.HasPrefix(key.file, "GEN2SUB:") {
 			ent, err := privEntity(env)
 			if err != nil {
@@ -1146,6 +1196,7 @@ func checkC10(env *engine.Env, ci any) engine.Outcome {
 		}
 		seen := 0
 		inFiles := false
+		var listed []string
 		for _, l := range strings.Split(string(block.Plaintext), "\n") {
 			if strings.HasPrefix(l, "Files:") {
 				inFiles = true
@@ -1160,6 +1211,7 @@ func checkC10(env *engine.Env, ci any) engine.Outcome {
 				continue
 			}
 			seen++
+			listed = append(listed, fs[3])
 			data, ok := members[fs[3]]
 			if !ok {
 				viol("sig:manifest-member-name:dpkg-sig:"+compClass(c.Comp), "the manifest names member %q, the archive stores %v", fs[3], arNames(pkg))
@@ -1176,6 +1228,16 @@ func checkC10(env *engine.Env, ci any) engine.Outcome {
 		if seen != 3 {
 			viol("sig:manifest-lines:dpkg-sig", "manifest lists %d files, expected the 3 members", seen)
 		}
+		{
+			// the manifest lists the members in the order of the archive (as dpkg-sig writes and reads it)
+			var stored []string
+			for _, m := range pkg.Ar[:3] {
+				stored = append(stored, m.Name)
+			}
+			if len(listed) == 3 && fmt.Sprint(listed) != fmt.Sprint(stored) {
+				viol("sig:manifest-order:dpkg-sig", "the manifest lists the members as %v, the archive stores them as %v", listed, stored)
+			}
+		}
 		if viaFn(c) {
 			// the clear-sign framing drops trailing blanks of a line: compare modulo those
 			norm := func(b []byte) string {
@@ -1184,6 +1246,34 @@ func checkC10(env *engine.Env, ci any) engine.Outcome {
 					ls = append(ls, strings.TrimRight(l, " \t\r"))
 				}
 				return strings.Join(ls, "\n")
+			}
+			if len(captured) == 1 && c.FailJ < 0 {
+				// the same settings packaged once more on a single processor: the callback is handed the same manifest
+				// (but for its date line)
+				noDate := func(b []byte) string {
+					var ls []string
+					for _, l := range strings.Split(norm(b), "\n") {
+						if !strings.HasPrefix(l, "Date:") {
+							ls = append(ls, l)
+						}
+					}
+					return strings.Join(ls, "\n")
+				}
+				if cfg2, err := parseYAML(text, mapping); err == nil {
+					if i2, err := cfg2.Get(f); err == nil {
+						i2 = nfpm.WithDefaults(i2)
+						i2.Deb.Signature.SignFn = info.Deb.Signature.SignFn
+						old := runtime.GOMAXPROCS(1)
+						var b2 bytes.Buffer
+						err := p.Package(i2, &b2)
+						runtime.GOMAXPROCS(old)
+						out.Transitions++
+						if err == nil && len(captured) == 2 && noDate(captured[0]) != noDate(captured[1]) {
+							viol("sig:manifest-unstable:dpkg-sig", "the manifest handed to the signer differs between two builds of the same settings (GOMAXPROCS %d and 1):\n%s\n---\n%s", old, noDate(captured[0]), noDate(captured[1]))
+						}
+						captured = captured[:1]
+					}
+				}
 			}
 			if len(captured) != 1 || norm(captured[0]) != norm(block.Plaintext) {
 				viol("sig:callback-bytes:dpkg-sig", "the signing callback did not receive the manifest that is in the package (%d calls)", len(captured))
